@@ -31,7 +31,7 @@ func c18Jobs(tier string, seed int64) []string {
 		"html:text:1", "html:key:1", "html:val:1", "html:style:1", "html:link:1", "html:file:1", "html:class:1", "html:table:1",
 		"html:cut:0", "html:cut:1", "html:cut:3",
 		// containers behind Link/Format wrappers keep their structure; style closures: results are escaped, failures are errors
-		"xml:wraplink:1", "xml:wrapformat:1", "xml:wrapmap:1", "html:styleclosure:1", "html:stylefail:1",
+		"xml:wraplink:1", "xml:wrapformat:1", "xml:wrapmap:1", "html:styleclosure:1", "html:stylefail:1", "html:urlhttp:1", "html:urlhost:1", "html:urlhost:2", "html:failcell:1",
 		// symbolic runes behind a concrete context: sequences that are markup only as a whole (]]> &#..; <!-- CR LF)
 		"xml:text:1:]]", "xml:val:1:]]", "html:text:1:]]", "html:val:1:]]", "xml:text:1:&#", "html:text:1:&#3", "xml:text:1:<!-", "xml:text:1:a\r", "xml:val:1:a\r", "html:style:1:]]",
 	}
@@ -281,6 +281,44 @@ func c18HTML(shape string, n int) {
 		notURL()
 		v = value.NewList(value.NewMap(value.RealMap{"a": value.String(s), "b": value.String("q-q-q")}), value.NewMap(value.RealMap{"a": value.String("y-y-y"), "b": value.String(s)}))
 		wantText = true
+	case "urlhttp":
+		// strings that start like a URL are shown as links: the target is the whole string
+		rs = append([]rune("http://"), rs...)
+		s = string(rs)
+		v = value.NewList(value.String(s), value.String("x-y-z"))
+		wantAttr = "href"
+	case "urlhost":
+		// "host:<target>" links to <target>, whatever characters the target starts with
+		v = value.NewList(value.String("host:"+s), value.String("x-y-z"))
+		wantAttr = "href"
+	case "failcell":
+		// a value that fails while it is rendered (lazy list with a failing element) anywhere in a tree:
+		// ToHtml reports the failure
+		lazyFail := func() value.Value { return eval(mustGen(value.New(), `[1,0,2].map(x->6%x)`)).v }
+		for ti, tree := range []value.Value{
+			value.NewList(lazyFail()),
+			value.NewList(value.NewList(value.Int(1), lazyFail())),
+			value.NewList(value.NewList(value.String(s)), value.NewList(value.Int(1), value.NewList(lazyFail()))),
+			value.NewList(value.NewList(value.NewMap(value.RealMap{"k": lazyFail()}))),
+			value.NewMap(value.RealMap{"k": lazyFail()}),
+			value.NewMap(value.RealMap{"k": value.NewList(value.NewList(lazyFail()))}),
+			value.NewList(value.NewMap(value.RealMap{"a": value.String(s), "b": lazyFail()})),
+			export.Link{Value: value.NewList(value.NewList(lazyFail())), Link: "t"},
+			lazyFail(),
+		} {
+			var ferr error
+			func() {
+				defer func() {
+					if rec := recover(); rec != nil {
+						ferr = errPanic
+						sym.Assert(false, "ToHtml-panics")
+					}
+				}()
+				_, _, ferr = export.ToHtml(tree, 10, nil, true)
+			}()
+			sym.Assert(ferr != nil, "failing-value-is-reported:"+strconv.Itoa(ti))
+		}
+		return
 	case "styleclosure":
 		// a one-argument style closure produces the value that is shown: its result is content like any other
 		notURL()
